@@ -138,6 +138,17 @@ func vSignOutHistory(t *testing.T, out *vEmitter, name string, redis bool, domai
 			out.Violation("control/history-request-not-served", "an authenticated request of the sign-out history was not served", map[string]interface{}{"history": name, "request": i, "status": res.Status})
 		}
 	}
+	// an unrelated client in between: a request for a host that matches no configured cookie domain, carrying a junk
+	// session cookie (the proxy answers it by clearing that cookie under the fallback domain); what it does to the
+	// process must not change how THIS browser's cookies are deleted
+	if len(domains) > 1 {
+		if req, err := vRawRequest(vBuildRaw("GET", "/", "10.0.0.7:4180", [][2]string{{"Cookie", e.opts.Cookie.Name + "=junk|1|x"}}, "")); err == nil {
+			e.serve(req)
+		}
+		if req, err := vRawRequest(vBuildRaw("GET", e.opts.ProxyPrefix+"/start", "unrelated.test", nil, "")); err == nil {
+			e.serve(req)
+		}
+	}
 	// ---- sign-out ----
 	target := "/oauth2/sign_out"
 	if rd != "" {
